@@ -143,5 +143,10 @@ Definition o_spec_step (l : list view) (o : oop) : list view :=
 Definition o_spec_read (l : list view) (i : nat) : rd :=
   match nth_error l i with Some (VVal v) => RVal v | Some VDangling => RDangling | _ => RRaise end.
 
+(* identity of the cell an optional refers to (for counting owners), and the number of engaged optionals *)
+Definition oid (o : option nat) : option nat := o.
+Definition is_some {A} (o : option A) : bool := match o with Some _ => true | None => false end.
+Definition nsome {A} (l : list (option A)) : nat := length (filter is_some l).
+
 Definition view_is_value (v : view) : bool := match v with VDangling => false | _ => true end.
 Definition engaged_count (l : list view) : nat := length (filter (fun v => match v with VVal _ => true | _ => false end) l).
